@@ -59,6 +59,43 @@ var locators = map[string]func(payload []byte) []int{
 	},
 }
 
+func init() {
+	// ColourInformationBox with colour_type 'nclx': the byte holding
+	// full_range_flag(1) reserved(7) is payload byte 10.
+	locators["colr.nclx.flags"] = func(p []byte) []int {
+		if len(p) >= 11 && string(p[:4]) == "nclx" {
+			return []int{10}
+		}
+		return nil
+	}
+	// LoudnessBaseBox (tlou/alou): first byte of every loudness base.
+	locators["lou.base"] = func(p []byte) []int {
+		if len(p) < 5 {
+			return nil
+		}
+		ver := p[0]
+		o, n := 4, 1
+		if ver >= 1 {
+			n = int(p[4] & 0x3f)
+			o = 5
+		}
+		var out []int
+		for i := 0; i < n; i++ {
+			fixed := 7 // downmix/DRC 2, peak levels 3, measurement system 1, measurement_count 1
+			if ver >= 1 {
+				fixed = 8
+			}
+			if o+fixed > len(p) {
+				break
+			}
+			out = append(out, o)
+			cnt := int(p[o+fixed-1])
+			o += fixed + 3*cnt
+		}
+		return out
+	}
+}
+
 func avcCAfterPPS(p []byte) (int, bool) {
 	if len(p) < 6 {
 		return 0, false
